@@ -3,11 +3,11 @@
 From Coq Require Import List ZArith Extraction ExtrOcamlBasic.
 From LMBase Require Import Res.
 From LMDense Require Import DenseModel.
-From LMFootprint Require Import FpModel.
+From LMFootprint Require Import FpModel FpHistory.
 
 Extraction Language OCaml.
 Extraction "footprint_model.ml"
-  acc_ok all_ok first_bad
+  acc_ok all_ok check_C06 first_bad
   balign_mat_src balign_slices balign_stripe
   fp_encode_into_avx2 fp_encode_into_sse2 fp_encode_generic wrap_encode wrap_encode_raw ext_encode
   stripe_rows stripe_block_idx fp_stripe_avx2_gen fp_stripe_avx2 ext_stripe
@@ -16,4 +16,5 @@ Extraction "footprint_model.ml"
   wrap_score_sse2 wrap_score_generic ext_score
   wrap_argmax_f32_avx2 wrap_max_f32_avx2 wrap_argmax_u8_avx2 wrap_max_u8_avx2 wrap_argmax_sse2 ext_max
   fp_from_rows fp_ravel fp_fill fp_sample sample_rows ext_dense
-  configure_wrap_model stride row_bytes.
+  configure_wrap_model stride row_bytes
+  hstep htrace hfinal h0.
